@@ -2,15 +2,7 @@
 import json, os
 from .core import VERIF
 
-CHECKS = {}   # id -> dict(text, note, technique, engine, design)
-NOT_YET = {}  # id -> reason
-
-
-def check(pid, text, note, technique, engine="tlc", design=None):
-    CHECKS[pid] = dict(text=text, note=note, technique=technique, engine=engine, design=design or "DESIGN.md section 5 (%s)" % pid)
-
-
-from . import manifest_table  # noqa  (fills CHECKS / NOT_YET)
+from .manifest_table import CHECKS, NOT_YET
 
 
 def build():
